@@ -50,7 +50,9 @@ def rule_E2(ctx, R):
         coll = label.split("::")[0]
         bad = None
         for n in (2, 3):
-            for addrs in _perms(n):
+            # all orders of distinct addresses, plus lists in which different leaves share an address (zero-sized members):
+            # every leaf must still be covered
+            for addrs in _perms(n) + [[0] * n] + ([[0, 0, 1], [1, 0, 0]] if n == 3 else []):
                 ll = None
                 if label.startswith("Retrying::raw_") and kind == "ACQ":
                     ll = (n + 2) * 2
